@@ -32,7 +32,8 @@ from harness.common import Check, MachineryError, cleanup, workdir
 SAFETY = {"quick": ["MC_Executor_1.cfg", "MC_Executor_2.cfg", "MC_Executor_2s_1.cfg", "MC_Executor_2s_2q.cfg"],
           "thorough": ["MC_Executor_1.cfg", "MC_Executor_2.cfg", "MC_Executor_3.cfg", "MC_Executor_2s_1.cfg",
                        "MC_Executor_2s_2q.cfg", "MC_Executor_2s_2.cfg"]}
-LIVENESS = {"quick": ["MC_Executor_live_1.cfg", "MC_Executor_live_2q.cfg", "MC_Executor_2s_live_1.cfg"],
+# (2-job liveness, MC_Executor_live_2q/live_2/2s_live, is thorough only: on a loaded box it alone took 5 min)
+LIVENESS = {"quick": ["MC_Executor_live_1.cfg", "MC_Executor_2s_live_1.cfg"],
             "thorough": ["MC_Executor_live_1.cfg", "MC_Executor_live_2q.cfg", "MC_Executor_live_2.cfg",
                          "MC_Executor_2s_live_1.cfg", "MC_Executor_2s_live.cfg"]}
 MUTANTS = {  # cfg -> text that must appear in TLC's verdict
@@ -73,7 +74,7 @@ PATTERN_MIN = 3
 # JVM start-up dominates the many small TLC runs: C1 only, few GC/compiler threads (measured 8.7 s -> 1.8 s)
 SMALL_JVM = {"JAVA_TOOL_OPTIONS": "-XX:ParallelGCThreads=2 -XX:TieredStopAtLevel=1 -XX:CICompilerCount=1"}
 BIG_JVM = {"JAVA_TOOL_OPTIONS": "-XX:ParallelGCThreads=4"}
-TRACE_CAP = {"quick": 8, "thorough": 80}  # real-run event logs validated by Trace_Executor.tla (~30k states each)
+TRACE_CAP = {"quick": 8, "thorough": 70}  # real-run event logs validated by Trace_Executor.tla (~30k states each)
 
 WHAT = {
     "submit-shutdown-toctou": (
@@ -483,7 +484,11 @@ def trace_phase(chk: Check, runs, work: Path, tier: str):
 
     runs = [r for r in runs if not r.counts.get("cancel_aborted_by_unexpected_exception")]
     two = [r for r in runs if r.scenario["style"].startswith("two:")]
-    runs = two[:6] + [r for r in runs if not r.scenario["style"].startswith("two:")][:TRACE_CAP[tier]]
+    ntwo = 3 if tier == "quick" else 9
+    one = [r for r in runs if not r.scenario["style"].startswith("two:")]
+    if tier == "quick":  # a log of 3 jobs costs 10^5 states and more: thorough only
+        one = [r for r in one if len(r.scenario["kinds"]) <= 2]
+    runs = two[:ntwo] + one[:TRACE_CAP[tier]]
     traces = [xr.to_trace(r) for r in runs]
     controls = xr.corrupt_traces(traces)
     if len(controls) < 3:
